@@ -572,7 +572,15 @@ def gen_o_nonrefl(rng, n):
             kind = "rot"
         if kind in ("three_refl", "neg_three_refl") and dim < 3:
             kind = "two_refl"
-        yield {"dim": dim, "kind": kind, "g": G.float_iso(rng, dim).tolist(), "a": rng.uniform(0.3, 2.8), "t": rng.uniform(0.3, 3.0) * rng.choice([-1, 1])}
+        a, t = rng.uniform(0.3, 2.8), rng.uniform(0.3, 3.0) * rng.choice([-1, 1])
+        if rng.random() < 0.2:
+            # near-reflections (wave 6): a reflection composed with a rotation of its wall / a translation along its wall by
+            # 1e-6 .. 1e-3 is a non-reflection at 100 .. 1e5 times the library's own ERROR_THRESHOLD (1e-8, relative to the
+            # size of the matrix) and nine to six orders of magnitude above float noise; nothing is claimed below 1e-6
+            kind = "refl_rot" if dim >= 3 and rng.random() < 0.5 else "refl_lox"
+            eps = 10 ** rng.uniform(-6, -3)
+            a, t = eps, eps * rng.choice([-1, 1])
+        yield {"dim": dim, "kind": kind, "g": G.float_iso(rng, dim).tolist(), "a": a, "t": t}
 
 
 def float_std(dim, kind, a, t):
